@@ -556,6 +556,14 @@ def distinct_values(rng, names):
     idx = [k for k, n in enumerate(names) if n.split("_")[-1] not in ("a", "b")]
     if idx and rng.random() < 0.35:
         out[rng.choice(idx)] = rng.choice([0.0, 0.0, 1.0])
+    # (R5-C17 / C10-m1: the Midline scalars assigned exactly 0.0 through a declared name; decided by a generator of its own
+    # so that the main random stream -- and with it every other case -- stays what it was)
+    import hashlib
+    import random as _random
+    side = _random.Random(int(hashlib.sha1(repr((list(names), out)).encode()).hexdigest()[:8], 16))
+    for k, n in enumerate(names):
+        if n in ("midext_prob", "mixing") and side.random() < 0.4:
+            out[k] = 0.0
     return out
 
 
